@@ -121,6 +121,22 @@ def run_case(base, case, acc):
     rec = gen.network(rng, genes=0, finite=True, size=rng.randint(1, 2), allow_forced=rng.random() < 0.4, p_cycle=0.95)
     if rng.random() < 0.35:
         rec["direction"] = "min"
+    if rng.random() < 0.25:
+        # asymmetric bounds: the largest bound of the whole model is a *lower* bound, and
+        # the objective pulls that reaction backwards beyond every upper bound
+        cand = [r for r in rec["rxns"] if not isinstance(r["lb"], str) and r["lb"] < 0 and len(r["stoich"]) >= 2]
+        if cand:
+            r = rng.choice(cand)
+            top = max(abs(x["ub"]) for x in rec["rxns"] if not isinstance(x["ub"], str))
+            r["lb"] = -3 * max(top, 10)
+            for e in rec["rxns"]:
+                if len(e["stoich"]) == 1 and not isinstance(e["lb"], str):  # let the boundary supply it
+                    e["lb"] = min(e["lb"], -3 * max(top, 10)) if e["lb"] < 0 else e["lb"]
+            for x in rec["rxns"]:
+                x["obj"] = 0
+            r["obj"] = 1
+            rec["direction"] = "min"
+            acc.count("models_whose_largest_bound_is_a_lower_bound")
     lab, res = gen.classify(rec)
     if lab["status"] != "optimal":
         acc.count("skipped_no_optimum")
